@@ -12,7 +12,7 @@ SMALL_SCALARS = [None, True, 0, 1, "a"]
 KEYS_BASIC = ["a", "b", "c", "x"]
 KEYS_ODD = ["", "é", "😀", "a'b", 'a"b', "a\\", "\\", "\u0001", " ", "a b", "and", "true", "null",
             "/", "~", "~0", "~1", "~01", "a/b", "a~b", "-", "#", "#a", "~a", "#0", "$", "@", "*", "..", "[", "'", '"']
-KEYS_INTLIKE = ["0", "1", "2", "-1", "01", "00", "+1", " 1", "1 ", "1_0", "１", "-0", "10", "1e2", "1.0", "9007199254740991"]
+KEYS_INTLIKE = ["0", "1", "2", "-1", "01", "00", "+1", " 1", "1 ", "1_0", "１", "-0", "10", "1e2", "1.0", "9007199254740991", "1１", "1٠", "11"]
 KEYS_ALL = KEYS_BASIC + KEYS_ODD + KEYS_INTLIKE
 
 
